@@ -1424,3 +1424,70 @@ def _subst_params(rt, args, site):
             return Term("index", subst(t.a))
         return t
     return subst(rt, True)
+
+
+def err_edge_defs_of_return(fn, b, err_blocks, og=None):
+    """On the Err edge(s) of the Result-returning call in block b: the definitions of the return place `_0` that can be
+    live at a `return` reached from there.  Each is classified: 'err' (an Err(..) aggregate, `?`'s from_residual, the
+    failed result itself moved/adapted into _0) or 'other' (Ok(..), an unrelated call result, ...).
+    Returns (list of (class, block, description)), loops_back: bool)"""
+    og = og or Origins(fn)
+    site = (fn.id, b)
+    region = reach(fn, err_blocks)
+    loops_back = b in region
+
+    def from_result(term):
+        return any(x.k == "call" and x.site == site for x in walk(term))
+
+    def classify_block(x):
+        """last definition of _0 inside block x (statements, then the call terminator), or None"""
+        blk = fn.blocks[x]
+        last = None
+        for st in blk["s"]:
+            if st["p"]["l"] == 0 and not st["p"]["p"]:
+                rv = st["rv"]
+                if rv["k"] == "agg":
+                    last = ("err" if rv.get("variant") == "Err" else "other", x, "_0 = %s(..)" % rv.get("variant"))
+                elif rv["k"] == "use":
+                    term = og.of_operand(rv["a"])
+                    last = ("err" if from_result(term) else "other", x, "_0 = %s" % tstr(term)[:60])
+                else:
+                    last = ("other", x, "_0 = <%s>" % rv["k"])
+        t = blk["t"]
+        if t["k"] == "call" and t["dest"]["l"] == 0 and not t["dest"]["p"]:
+            n = cname(t)
+            if n.endswith("::from_residual"):
+                last = ("err", x, "from_residual")
+            elif any(from_result(og.of_operand(a)) for a in t["args"]):
+                last = ("err", x, "_0 = %s(the failed result)" % n.rsplit("::", 1)[-1])
+            else:
+                last = ("other", x, "_0 = %s(..)" % n)
+        return last
+
+    # forward propagation of "last def of _0" over the err region
+    state = {}
+    work = []
+    for e in err_blocks:
+        state.setdefault(e, set()).add(None)
+        work.append(e)
+    out = []
+    seen_out = set()
+    while work:
+        x = work.pop()
+        ins = state.get(x, set())
+        d = classify_block(x)
+        outs = {d} if d is not None else set(ins)
+        t = fn.blocks[x]["t"]
+        if t["k"] == "return":
+            for o in outs:
+                if o not in seen_out:
+                    seen_out.add(o)
+                    out.append(o if o is not None else ("other", x, "_0 not assigned on the error edge"))
+        for s in fn.succs(x):
+            if fn.blocks[s]["cleanup"]:
+                continue
+            cur = state.setdefault(s, set())
+            if not outs <= cur:
+                cur |= outs
+                work.append(s)
+    return out, loops_back
